@@ -100,6 +100,8 @@ def gen_leaf(rng, ishape, preserve=False, allow_unknown=True):
         lead = rng.randint(2, 3)
         ms = [lead] + list(ishape)
         return leaf("Multiply", ishape, ms, mult=arr(rng, ms), conj=rng.random() < 0.3)
+    if cls == "Circshift" and rng.random() < 0.3:
+        return leaf("Circshift", ishape, ishape, shift=[rng.randint(-3, 3) for _ in ishape], axes=None)
     if cls == "Circshift":
         k = rng.randint(1, nd)
         axes = sorted(rng.sample(axes_all, k))
@@ -148,6 +150,8 @@ def gen_leaf(rng, ishape, preserve=False, allow_unknown=True):
             st = rng.choice([1, 1, 2])
             idx.append([a, b, st])
             o.append(len(range(a, b, st)))
+        if nd == 1 and rng.random() < 0.4:
+            return leaf("Slice", ishape, o, idx=idx, bare=True)   # idx given as a bare slice, not a tuple
         return leaf("Slice", ishape, o, idx=idx)
     if cls == "Sum":
         k = rng.randint(1, nd - 1)
@@ -198,8 +202,13 @@ def gen_leaf(rng, ishape, preserve=False, allow_unknown=True):
         o = list(ishape[:-D]) + pts
         if cls == "Interpolate":
             ker = rng.choice(["spline", "spline", "kaiser_bessel"])
-            return leaf("Interpolate", ishape, o, coord=coord, kernel=ker,
-                        width=rng.choice([1, 2, 2, 3, 2.5]), param=rng.choice([0, 1, 2]) if ker == "spline" else rng.choice([1.0, 5.0, 8.5]))
+            width = rng.choice([1, 2, 2, 3, 2.5])
+            param = rng.choice([0, 1, 2]) if ker == "spline" else rng.choice([1.0, 5.0, 8.5])
+            if rng.random() < 0.25:
+                # per-axis widths / parameters (documented as "float or tuple of floats")
+                width = [rng.choice([1, 2, 3, 2.5]) for _ in range(D)]
+                param = [rng.choice([0, 1, 2]) if ker == "spline" else rng.choice([1.0, 5.0]) for _ in range(D)]
+            return leaf("Interpolate", ishape, o, coord=coord, kernel=ker, width=width, param=param)
         return leaf("NUFFT", ishape, o, coord=coord, oversamp=rng.choice([1.25, 1.25, 1.5, 2.0]),
                     width=rng.choice([4, 4, 3, 5]), toeplitz=rng.random() < 0.4)
     if cls == "Wavelet":
@@ -408,6 +417,8 @@ def gen_prox(rng, shape=None, depth=1):
         return {"cls": "L1Reg", "shape": shape, "lamda": lam}
     if k == "L2Reg":
         return {"cls": "L2Reg", "shape": shape, "lamda": lam}
+    if k == "L2RegY" and rng.random() < 0.3:
+        return {"cls": "L2Reg", "shape": shape, "lamda": lam, "y_scalar": round(rng.uniform(-1, 1), 3)}
     if k == "L2RegY":
         return {"cls": "L2Reg", "shape": shape, "lamda": lam, "y": arr(rng, shape)}
     if k == "L2RegProxh":
@@ -423,6 +434,8 @@ def gen_prox(rng, shape=None, depth=1):
     if k == "L1Proj":
         return {"cls": "L1Proj", "shape": shape, "epsilon": round(rng.uniform(0.1, 20), 3)}
     if k == "BoxConstraint":
+        if rng.random() < 0.3:
+            return {"cls": "BoxConstraint", "shape": shape, "lower_arr": arr(rng, shape, kind="f64"), "width": 0.8, "real_only": True}
         return {"cls": "BoxConstraint", "shape": shape, "lower": -0.5, "upper": 0.75, "real_only": True}
     if k == "NoOp":
         return {"cls": "NoOp", "shape": shape}
